@@ -40,6 +40,34 @@ def step (ts : List String) : String :=
         | a :: b :: t => (a, b) :: pairs t
         | _ => []
       fB (inPolygon (pF px) (pF py) (pairs fs))
+  -- round 6: validation ladders (0 = accepted, k = k-th raise)
+  | ["cctor", a, b] => toString (clampCtor (pF a) (pF b))
+  | ["cctor2", a, b, c, d] => toString (clampCtor2 (pF a) (pF b) (pF c) (pF d))
+  | ["cctor3", a, b, c, d, e, f] => toString (clampCtor3 (pF a) (pF b) (pF c) (pF d) (pF e) (pF f))
+  | ["pctor1", a] => toString (periodicCtor1 (pF a))
+  | ["pctor2", a, b] => toString (periodicCtor2 (pF a) (pF b))
+  | ["pctor3", a, b, c] => toString (periodicCtor3 (pF a) (pF b) (pF c))
+  -- round 6: sampler entry points; output = axes followed by the wrapped function's arguments in call order
+  | ["samp1", lx, x0, x1, nx] =>
+      match sample1d (fun x => [x]) (pN lx) (pF x0) (pF x1) (pI nx) with
+      | .ok (xs, v) => fFs (xs ++ v.flatten)
+      | .error k => s!"E {k}"
+  | ["samp2", lx, ly, x0, x1, y0, y1, nx, ny] =>
+      match sample2d (fun x y => [x, y]) (pN lx) (pN ly) (pF x0) (pF x1) (pF y0) (pF y1) (pI nx) (pI ny) with
+      | .ok (xs, ys, v) => fFs (xs ++ ys ++ v.flatten.flatten)
+      | .error k => s!"E {k}"
+  | ["samp3", lx, ly, lz, x0, x1, y0, y1, z0, z1, nx, ny, nz] =>
+      match sample3d (fun x y z => [x, y, z]) (pN lx) (pN ly) (pN lz) (pF x0) (pF x1) (pF y0) (pF y1) (pF z0) (pF z1)
+          (pI nx) (pI ny) (pI nz) with
+      | .ok (xs, ys, zs, v) => fFs (xs ++ ys ++ zs ++ v.flatten.flatten.flatten)
+      | .error k => s!"E {k}"
+  -- round 6: nested wrappers; the wrapped function is t ↦ 2t − 1 (exact in both worlds up to the same rounding)
+  | ["coper", x, p, m, mn, mx] =>
+      fF (clampOutPeriodic1 (fun _ _ => pF m) (fun t => 2 * t - 1) (pF p) (pF mn) (pF mx) (pF x))
+  | ["axper", x, y, z, pz, m] =>
+      fFs (axisymmetricPeriodic Float.sqrt (fun _ _ => pF m) (fun a b => [a, b]) 0 (pF pz) (pF x) (pF y) (pF z))
+  | ["slci", ax, v, x, y, a, b, c, d, e, f] =>
+      fFs (sliceClampInput3 (fun p q r => [p, q, r]) (pF a) (pF b) (pF c) (pF d) (pF e) (pF f) (pN ax) (pF v) (pF x) (pF y))
   | _ => "bad-op"
 
 def main : IO UInt32 := do
